@@ -8,7 +8,7 @@ PROP = "C06"
 TOL = (1e-12, 1e-15)
 LETTERS = "KEPG"
 OMEGA_X = "PEDKR"
-INVALID = ["B", "X", "1", "", "AA", 5, "*", " "]
+INVALID = ["B", "X", "1", "", "AA", 5, "*", " ", "GLU", "Ala", "lys", "KR", "+", "0"]
 
 
 def SP(seq):
@@ -224,6 +224,51 @@ def check_collisions(case):
     return out, calls
 
 
+def check_containers(case):
+    """The same groups handed over in different container types (list, tuple, set, frozenset, string, dict keys, generator,
+    reversed iterator, map object): the result must not depend on the container."""
+    seq = case["seq"]
+    out = []
+    calls = 0
+    kinds = {
+        "list": lambda g: list(g), "tuple": lambda g: tuple(g), "set": lambda g: set(g), "frozenset": lambda g: frozenset(g),
+        "string": lambda g: "".join(g), "dict-keys": lambda g: {x: 1 for x in g}.keys(), "generator": lambda g: (x for x in g),
+        "reversed": lambda g: reversed(list(g)), "map-lower": lambda g: map(str.lower, list(g)), "iter": lambda g: iter(list(g)),
+    }
+    for g1, g2 in ((["E", "D"], ["K", "R"]), (["K", "P"], ["E", "G"]), (["G", "S", "T"], ["D", "R", "P"])):
+        try:
+            want2 = SP(seq).get_kappa_X(list(g1), list(g2))
+            want1 = SP(seq).get_kappa_X(list(g1))
+            calls += 2
+        except Exception as e:  # noqa
+            out.append({"key": "exception", "what": "kappa_X(%r,%r) raised %r on %s" % (g1, g2, e, seq), "case": case})
+            continue
+        for k1, f1 in kinds.items():
+            for k2, f2 in kinds.items():
+                if k1 != "list" and k2 != "list" and k1 != k2:
+                    continue
+                calls += 1
+                try:
+                    got = SP(seq).get_kappa_X(f1(g1), f2(g2))
+                except Exception as e:  # noqa
+                    out.append({"key": "container-type-rejected", "what": "%s: kappa_X with groups as %s/%s raised %r" % (seq, k1, k2, e),
+                                "case": dict(case, g1=g1, g2=g2, kinds=[k1, k2])})
+                    continue
+                if not eq(got, want2):
+                    out.append({"key": "container-type-changes-result", "what": "%s: kappa_X(%r as %s, %r as %s)=%r but with lists %r"
+                                % (seq, g1, k1, g2, k2, got, want2), "case": dict(case, g1=g1, g2=g2, kinds=[k1, k2])})
+            calls += 1
+            try:
+                got = SP(seq).get_kappa_X(f1(g1))
+                if not eq(got, want1):
+                    out.append({"key": "container-type-changes-result", "what": "%s: kappa_X(%r as %s)=%r but with a list %r"
+                                % (seq, g1, k1, got, want1), "case": dict(case, g1=g1, kinds=[k1])})
+            except Exception as e:  # noqa
+                out.append({"key": "container-type-rejected", "what": "%s: one-group kappa_X with the group as %s raised %r" % (seq, k1, e),
+                            "case": dict(case, g1=g1, kinds=[k1])})
+    return out, calls
+
+
 def check_invalid(case):
     """A group containing a non-amino-acid, at every position of either group, must be rejected."""
     out = []
@@ -259,6 +304,8 @@ def check_case(case):
         return check_invalid(case)
     if case["kind"] == "collisions":
         return check_collisions(case)
+    if case["kind"] == "containers":
+        return check_containers(case)
     return check_word(case["seq"], case)
 
 
@@ -306,6 +353,7 @@ def run(tier, seed, t0):
         cases.append({"kind": "invalid", "seq": w})
     for w in ["KEPGDRSTYAGS", "DKDKPEPRSTAG", "EEKKPPGGDDRRAASSTT", "KPEGSDRATKEPG"]:
         cases.append({"kind": "collisions", "seq": w})
+        cases.append({"kind": "containers", "seq": w})
     cases.sort(key=lambda c: -len(c["seq"]) * (81 if c.get("assignments") else 1))
     nsh = 16 * 8
     acc = core.pmap(shard, [cases[i::nsh] for i in range(nsh)])
